@@ -682,6 +682,11 @@ def _run(eng, contract, fn, res):
             oc = ("return", Ty.mk_none())
         if isinstance(oc, tuple) and oc[0] == "return":
             val = oc[1]
+            if isinstance(contract.returns, Ty.Opt):
+                # the declared Optional return type unifies the None path and the value path
+                raw = eng.deref(s2, val) if not isinstance(val, PyConst) else val
+                if isinstance(raw, (V, PyConst)) and not (isinstance(raw, V) and isinstance(raw.t, Ty.Opt)):
+                    val = eng.coerce(raw, contract.returns)
             canary_state = canary_state or s2.clone()
             for j, post in enumerate(list(contract.ensures) + list(contract.ensures_t1)):
                 g = eng.eval_spec(s2, post, {"result": val})
